@@ -2,8 +2,9 @@ SPECIFICATION Spec
 CONSTANTS
   NK = 3
   NV = 2
+  Shades = 1
   BDepth = 4
   Obs <- ObsEmit
-INVARIANTS TypeOK SortedNoDup GetAfterSet RemoveOnce FillLaw IterLaw
+INVARIANTS TypeOK SortedNoDup GetAfterSet RemoveOnce FillLaw ExactValueLaw IterLaw
 PROPERTIES MutatorsOnly SlotsIndependent DupIsEqual
 CHECK_DEADLOCK FALSE
